@@ -26,7 +26,10 @@ def _np_if(x, flag):
 
 
 def _wells(op, key="wells", flag="wnp"):
-    return _np_if(op[key], op.get(flag, False))
+    w = op[key]
+    if op.get("wtuple") and key == "wells" and isinstance(w, list) and w and not isinstance(w[0], list):
+        return tuple(w)
+    return _np_if(w, op.get(flag, False))
 
 
 def _as_ints(x):
